@@ -496,6 +496,13 @@ def _has_unk(v: Any, depth: int = 0) -> bool:
     return False
 
 
+class Computed:
+    """A watched external whose recorded answer depends on its arguments: Interp.watch_externals[path] = Computed(fn(args, kwargs))."""
+
+    def __init__(self, fn) -> None:
+        self.fn = fn
+
+
 class Interp:
     """One interpreter per analysed world; ``steps`` bounds the work of one query."""
 
@@ -684,7 +691,8 @@ class Interp:
     def external(self, path: str, args: list, kwargs: dict) -> Any:
         if path in self.watch_externals:
             self.external_calls.append((path, list(args), dict(kwargs)))
-            return self.watch_externals[path]
+            w_ = self.watch_externals[path]
+            return w_.fn(args, kwargs) if isinstance(w_, Computed) else w_
         for long, short in (('jax.numpy.', 'jnp.'), ('numpy.', 'jnp.'), ('jax.tree_util.tree_', 'jax.tree.'), ('jax.tree_util.', 'jax.tree.'), ('jax.lax.', 'lax.')):
             if path.startswith(long):
                 path = short + path[len(long):]
